@@ -158,14 +158,21 @@ example : subExample.Conservative := ⟨fun _ _ h => h, fun _ _ h => h, fun _ h 
 theorem perm_extends_parsePublicKeyRSA (bs : Bytes) (k : X.Key) (h : X.parsePublicKeyRSA false bs = .ok k) :
     X.parsePublicKeyRSA true bs = .ok k := X.parsePublicKeyRSA_perm bs k h
 
-/-- SITE parsePublicKey/0 — `parsePublicKey` with the other algorithms opaque -/
-theorem perm_extends_parsePublicKey (other : Bool → Nat → Bytes → Res X.Key)
-    (hother : ∀ algo bs k, other false algo bs = .ok k → other true algo bs = .ok k) (algo : Nat) (bs : Bytes) (k : X.Key)
-    (h : X.parsePublicKey other false algo bs = .ok k) : X.parsePublicKey other true algo bs = .ok k := by
-  unfold X.parsePublicKey at h ⊢
-  split_ifs at h ⊢
-  · exact X.parsePublicKeyRSA_perm bs k h
-  · exact hother _ _ _ h
+/-- SITE parsePublicKey/0 — `parsePublicKey`, ALL arms (RSA, DSA, ECDSA with the named-curve lookup, Ed25519, X25519,
+    unknown algorithm), for all algorithm numbers, key bytes and parameter bytes; `ecOk` (the point decoding of
+    `elliptic.Unmarshal`) is any predicate of the curve and the bytes.  Only the RSA arm reads the flag; DSA and ECDSA
+    depend on the mode through `asn1.Unmarshal` alone, the remaining arms not at all. -/
+theorem perm_extends_parsePublicKey (ecOk : Nat → Bytes → Bool) (algo : Nat) (bs ps : Bytes) (k : X.Key)
+    (h : X.parsePublicKey ecOk false algo bs ps = .ok k) : X.parsePublicKey ecOk true algo bs ps = .ok k :=
+  X.parsePublicKey_perm ecOk algo bs ps k h
+
+/-- the non-RSA arms have mode-dependent inputs too (DSA: a public value with a non-minimally encoded length) -/
+theorem perm_strictly_more_parsePublicKeyDSA :
+    X.parsePublicKey (fun _ _ => true) false 2 [2, 0x81, 1, 5] [0x30, 9, 2, 1, 7, 2, 1, 3, 2, 1, 2] = .err ∧
+    X.parsePublicKey (fun _ _ => true) true 2 [2, 0x81, 1, 5] [0x30, 9, 2, 1, 7, 2, 1, 3, 2, 1, 2] = .ok (.dsa 5 7 3 2) := by decide
+
+example : X.parsePublicKey (fun _ _ => true) false 3 [4, 1, 2] [6, 5, 43, 129, 4, 0, 34] = .ok (.ecdsa 2 [4, 1, 2]) := by decide
+example : X.parsePublicKey (fun _ _ => true) false 2 [2, 1, 5] [0x30, 9, 2, 1, 7, 2, 1, 3, 2, 1, 2] = .ok (.dsa 5 7 3 2) := by decide
 
 example : X.parsePublicKeyRSA false [0x30, 6, 2, 1, 5, 2, 1, 3] = .ok (.rsa 5 3) := by decide
 
@@ -211,6 +218,39 @@ theorem perm_extends_qualCPS (qid : List Int) (qfull : Bytes) (acc r : X.Pol) (h
 theorem perm_extends_extStep (sub : X.Sub) (hs : sub.Conservative) (e : X.Ext) (out o : X.Cert)
     (h : X.extStep sub false e out = .ok o) : X.extStep sub true e out = .ok o := X.extStep_perm sub hs e out o h
 
+/-- SITE parseCertificate/20, sub-parser modelled: `parseSignedCertificateTimestampList` (framing loop + the one
+    `asn1.Unmarshal`; `ct.DeserializeSCT` is any predicate `deser`) is conservative — so for `X.subWithSCT` the SCT
+    component of `X.Sub.Conservative` is proved, not assumed -/
+theorem perm_extends_parseSCTList (deser : Nat → Bytes → Bool) (v : Bytes) (n : Nat)
+    (h : X.parseSCTList deser false v = (n, true)) : X.parseSCTList deser true v = (n, true) := X.parseSCTList_perm deser v n h
+
+example : X.parseSCTList (fun _ _ => true) false [4, 5, 0, 3, 0, 1, 9] = (1, true) := by decide
+
+theorem perm_strictly_more_parseSCTList :
+    X.parseSCTList (fun _ _ => true) false [4, 0x81, 5, 0, 3, 0, 1, 9] = (0, false) ∧
+    X.parseSCTList (fun _ _ => true) true [4, 0x81, 5, 0, 3, 0, 1, 9] = (1, true) := by decide
+
+/-- the certificate-level theorems with the SCT list modelled: only Tor and QCStatements.Parse remain assumed -/
+theorem perm_extends_parseExts_sct (deser : Nat → Bytes → Bool) (tor : Bool → Bytes → Option Nat) (qc : Bool → Bytes → Option Unit)
+    (ht : ∀ v n, tor false v = some n → tor true v = some n) (hq : ∀ v, qc false v = some () → qc true v = some ())
+    (es : List X.Ext) (out o : X.Cert) (h : X.parseExts (X.subWithSCT deser tor qc) false es out = .ok o) :
+    X.parseExts (X.subWithSCT deser tor qc) true es out = .ok o :=
+  X.parseExts_perm _ (X.subWithSCT_conservative deser tor qc ht hq) es out o h
+
+example : ∀ v n, (fun (_ : Bool) (_ : Bytes) => (none : Option Nat)) false v = some n →
+    (fun (_ : Bool) (_ : Bytes) => (none : Option Nat)) true v = some n := fun _ _ h => h
+
+/-- **T1**: the EKU table the model reads (`ekuKnownOIDs`, the keys of `ekuConstants` extracted with go/ast) is well
+    formed (every key is a dotted OID — no `-1` placeholder), as long as its count says, and `extKeyUsageFromOID` is
+    still the plain map lookup by `oid.String()` the model's `ekuIsKnown` stands for -/
+theorem eku_table_pinned :
+    (∀ o ∈ ZV.Generated.C20.ekuKnownOIDs, ∀ a ∈ o, 0 ≤ a) ∧
+    ZV.Generated.C20.ekuKnownOIDs.length = ZV.Generated.C20.ekuKnownCount ∧ 0 < ZV.Generated.C20.ekuKnownCount ∧
+    ZV.Generated.C20.extKeyUsageFromOIDBody = "s := oid.String(); eku, ok = ekuConstants[s]; return" := by decide
+
+/-- serverAuth is known, an arbitrary private arc is not (the split of `X.ekuSplit`) -/
+example : X.ekuSplit (.vcons (.oid [1, 3, 6, 1, 5, 5, 7, 3, 1]) (.vcons (.oid [1, 2, 3]) .vnil)) (0, []) = (1, [.oid [1, 2, 3]]) := by decide
+
 /-- the extension loop -/
 theorem perm_extends_parseExts (sub : X.Sub) (hs : sub.Conservative) (es : List X.Ext) (out o : X.Cert)
     (h : X.parseExts sub false es out = .ok o) : X.parseExts sub true es out = .ok o := X.parseExts_perm sub hs es out o h
@@ -230,21 +270,20 @@ theorem perm_strictly_more_extStep :
     policies, AIA, SCT count, IsPrecert, Tor descriptors, CABF organisation id, QCStatements — strict success implies
     permissive success with the identical value.  EXCEPTION (finding D31, below): KeyUsage, BasicConstraints*, SelfSigned /
     ValidationLevel are not fields of `X.Cert`. -/
-theorem perm_extends_parseCertificate (other : Bool → Nat → Bytes → Res X.Key)
-    (hother : ∀ algo bs k, other false algo bs = .ok k → other true algo bs = .ok k) (sub : X.Sub) (hs : sub.Conservative)
-    (algo : Nat) (keyData : Bytes) (exts : List X.Ext) (c : X.Cert)
-    (h : X.parseCertificate other sub false algo keyData exts = .ok c) :
-    X.parseCertificate other sub true algo keyData exts = .ok c := by
+theorem perm_extends_parseCertificate (ecOk : Nat → Bytes → Bool) (sub : X.Sub) (hs : sub.Conservative)
+    (algo : Nat) (keyData paramsFull : Bytes) (exts : List X.Ext) (c : X.Cert)
+    (h : X.parseCertificate ecOk sub false algo keyData paramsFull exts = .ok c) :
+    X.parseCertificate ecOk sub true algo keyData paramsFull exts = .ok c := by
   unfold X.parseCertificate at h ⊢
-  cases hk : X.parsePublicKey other false algo keyData with
+  cases hk : X.parsePublicKey ecOk false algo keyData paramsFull with
   | ok k =>
-    rw [perm_extends_parsePublicKey other hother algo keyData k hk]
+    rw [X.parsePublicKey_perm ecOk algo keyData paramsFull k hk]
     simp only [hk] at h ⊢
     exact X.parseExts_perm sub hs exts _ c h
   | err => simp [hk] at h
   | panic => simp [hk] at h
 
-example : X.parseCertificate (fun _ _ _ => .err) subExample false 1 [0x30, 6, 2, 1, 5, 2, 1, 3] [⟨[2, 5, 29, 14], false, [4, 1, 9]⟩]
+example : X.parseCertificate (fun _ _ => true) subExample false 1 [0x30, 6, 2, 1, 5, 2, 1, 3] [] [⟨[2, 5, 29, 14], false, [4, 1, 9]⟩]
     = .ok { key := some (.rsa 5 3), ski := .bytes [9] } := by decide
 
 /-- **finding D31 carried as the explicit exception**: the keyUsage step swallows the asn1 error in both modes, so a
@@ -287,8 +326,9 @@ def gnSite (n : Nat) (pol : String) (tag : Nat) : SiteModel :=
   ⟨("x509.go", "parseGeneralNames", n, pol), "X.gnElem", "perm_extends_gnElem", GnStmt tag, gnStmt tag⟩
 
 def siteModels : List SiteModel := [
-  ⟨("x509.go", "parsePublicKey", 0, "strict-guard"), "X.parsePublicKeyRSA", "perm_extends_parsePublicKeyRSA",
-    ∀ bs k, X.parsePublicKeyRSA false bs = .ok k → X.parsePublicKeyRSA true bs = .ok k, X.parsePublicKeyRSA_perm⟩,
+  ⟨("x509.go", "parsePublicKey", 0, "strict-guard"), "X.parsePublicKey", "perm_extends_parsePublicKey",
+    ∀ ecOk algo bs ps k, X.parsePublicKey ecOk false algo bs ps = .ok k → X.parsePublicKey ecOk true algo bs ps = .ok k,
+    X.parsePublicKey_perm⟩,
   gnSite 0 "perm-guard/on-error" 0, gnSite 1 "perm-guard/on-error" 4, gnSite 2 "perm-guard/on-error" 5,
   gnSite 3 "other:if-else/perm-then/else-rejects" 7, gnSite 4 "perm-guard/on-error" 8,
   pcSite 0 "perm-guard/on-error" [2, 5, 29, 17], pcSite 1 "perm-guard/on-error" [2, 5, 29, 18],
